@@ -4,6 +4,7 @@
    with asynchronous exceptions and kills landing at any statement boundary, and models the
    parent-side decoding (ThreadWorker._get_result, ProcessWorker._get_result). *)
 From PW Require Import Child.Sem Gen.Skel Child.Runs Child.Proofs Child.ProofsRemote.
+From PW Require Ctrl.RemoteLive Gen.RemoteLive.
 
 (* For every kind in {thread, process} x {one-shot, persistent}, every behaviour of the target
    (returns, raises an Exception, raises a BaseException, loops until interrupted), every payload
@@ -53,6 +54,28 @@ Example C01_example_kill_mid_send :
   /\ observe KThread true (run KThread true TReturn []) = OOk.
 Proof. repeat split; vm_compute; reflexivity. Qed.
 
+(* the remote kind, parent side: the parent-side object counts as dead only when the frontend thread - which receives the final
+   outcome and stores it - has finished: "dead" implies "the outcome is there", in every state in which the cached flags are true and
+   whatever the child process and the frontend thread do during the call.  is_alive() as regenerated from the source (Gen/RemoteLive.v). *)
+Theorem C01_remote_dead_implies_the_outcome_has_been_stored :
+  forall s e s', Ctrl.RemoteLive.inv s = true ->
+    Ctrl.RemoteLive.run Ctrl.RemoteLive.MAlive e Gen.RemoteLive.gen_remote_is_alive s = (Some true, s') ->
+    Ctrl.RemoteLive.front s' = false /\ Ctrl.RemoteLive.inv s' = true.
+Proof.
+  intros s e s' I R.
+  destruct (Ctrl.RemoteLive.sound_means Ctrl.RemoteLive.MAlive Gen.RemoteLive.gen_remote_is_alive ltac:(vm_compute; reflexivity) s e I)
+    as [dead [s2 [R2 [I2 D]]]].
+  rewrite R in R2. inversion R2; subst. split; [apply D; reflexivity|exact I2].
+Qed.
+
+(* consulting the cached word of the server BEFORE looking at the frontend thread breaks it: a later call says "dead" while the
+   outcome is still on its way *)
+Theorem C01_refuted_if_the_cache_is_consulted_before_the_frontend_thread :
+  Ctrl.RemoteLive.sound Ctrl.RemoteLive.MAlive [Ctrl.RemoteLive.RKnown; Ctrl.RemoteLive.RAsk; Ctrl.RemoteLive.RFront; Ctrl.RemoteLive.RRetFalse] = false.
+Proof. vm_compute. reflexivity. Qed.
+
 Print Assumptions C01_every_landing_point.
 Print Assumptions C01_every_landing_point_remote.
 Print Assumptions C01_remote_base_exception_needs_the_repair.
+Print Assumptions C01_remote_dead_implies_the_outcome_has_been_stored.
+Print Assumptions C01_refuted_if_the_cache_is_consulted_before_the_frontend_thread.
